@@ -264,6 +264,15 @@ def gen_zoom(rng):
             'x0': [dy(rng, -2, 2) for _ in range(ndim)], 'dx': [dy_nz(rng, 0.125, 1.5) for _ in range(ndim)],
             'u0': [dy(rng, -3, 3) for _ in range(ndim)], 'du': [dy_nz(rng, 0.125, 6.0 if big else 1.5) for _ in range(ndim)],
             'in_w': None, 'out_w': None}
+    if ndim >= 2 and rng.integers(0, 3) == 0:
+        # square / cubic grids (equal dims and spacing on all axes), origins different per axis on both sides
+        case['square'] = True
+        n = case['n'] = [max(2, n[0])] * ndim
+        m = case['m'] = [max(2, m[0])] * ndim
+        case['dx'] = [case['dx'][0]] * ndim
+        case['du'] = [case['du'][0]] * ndim
+        case['x0'] = [case['x0'][0] + d * dy_nz(rng, 0.125, 2, 3) for d in range(ndim)]
+        case['u0'] = [case['u0'][0] + d * dy_nz(rng, 0.25, 8, 2) for d in range(ndim)]
     if rng.integers(0, 3) == 0:
         case['in_w'] = [dy(rng, 0.25, 2.0) for _ in range(int(np.prod(n)))]
     if rng.integers(0, 3) == 0:
@@ -314,8 +323,24 @@ def tie_zoom(case):
     t.lines = ['C01 zoomn fwd %s %s %s' % (axes, _w_arg(w_in, gi.size), nat_list(jj)), 'C01 zoomsum fwd %s %s %s' % (axes, _w_arg(w_in, gi.size), nat_list(jj)),
                'C01 zoomn bwd %s %s %s' % (axes, _w_arg(w_out, go.size), nat_list(kk)), 'C01 zoomsum bwd %s %s %s' % (axes, _w_arg(w_out, go.size), nat_list(kk))]
 
+    for d in range(ndim):
+        for direction in ('fwd', 'bwd'):
+            t.lines.append('C01 zoomchirp %s %s %s %s %s' % (direction, rat(case['x0'][d]), rat(case['dx'][d]), rat(case['u0'][d]), rat(case['du'][d])))
+    czt_params = [[(complex(c.w), complex(c.a), int(c.n), int(c.m)) for c in cs] for cs in (ft.czts, ft.inv_czts)]
+
     def check(rs):
-        vals = [eval_psums(r) for r in rs]
+        for d in range(ndim):
+            for di, direction in enumerate(('fwd', 'bwd')):
+                r = rs[4 + 2 * d + di]
+                if not r.startswith('ok '):
+                    return 'model: ' + r
+                mw, ma = (complex(eval_psum(x)) for x in r[3:].split(' '))
+                cw, ca, cn, cm = czt_params[di][d]
+                want_nm = (n[d], m[d]) if di == 0 else (m[d], n[d])
+                if abs(mw - cw) > 1e-12 or abs(ma - ca) > 1e-12 or (cn, cm) != want_nm:
+                    return '%s chirp-z transform of axis %d: implementation w=%r a=%r n=%d m=%d, model (zoomChirp%s) w=%r a=%r n=%d m=%d' % (
+                        'forward' if di == 0 else 'inverse', d, cw, ca, cn, cm, '' if di == 0 else 'Inv', mw, ma, want_nm[0], want_nm[1])
+        vals = [eval_psums(r) for r in rs[:4]]
         for mv, rvv, name in ((vals[0], fwd, 'forward'), (vals[2], bwd, 'backward')):
             e = maxerr(mv, rvv)
             if not e <= 1e-9 * max(float(np.abs(mv).max()), 1e-300):
@@ -327,7 +352,7 @@ def tie_zoom(case):
         return None
     t.check = check
     wrapped = any(abs(case['du'][d] * case['dx'][d]) >= 3.0 for d in range(ndim))
-    t.counts = ['tie-zoom:%dD' % ndim, 'tie-zoom-weights-in:' + ('array' if case['in_w'] else 'scalar'),
+    t.counts = (['tie-zoom:square grids, per-axis origins'] if case.get('square') else []) + ['tie-zoom:%dD' % ndim, 'tie-zoom-weights-in:' + ('array' if case['in_w'] else 'scalar'),
                 'tie-zoom-weights-out:' + ('array' if case['out_w'] else 'scalar'), 'tie-zoom-branch:' + ('wrapped (|Δδ|>=3)' if wrapped else 'principal')]
     t.sig = ('tie-zoom', tuple(n), tuple(m), bool(case['in_w']), bool(case['out_w']))
     return t
@@ -748,6 +773,12 @@ DIRECTED = [
     {'family': 'tie-zoomaxes', 'r': 1, 'ndim': 2, 'dir': 'fwd', 'seed': 1},        # D5: tensor field on a 2-D grid
     {'family': 'tie-zoomaxes', 'r': 0, 'ndim': 3, 'dir': 'fwd', 'seed': 2},        # D5: 3-D grid
     {'family': 'tie-zoomaxes', 'r': 2, 'ndim': 4, 'dir': 'bwd', 'seed': 3},
+    {'family': 'tie-zoom', 'n': [4, 4], 'm': [3, 3], 'x0': [-0.75, -0.75], 'dx': [0.5, 0.5], 'u0': [6.5, -1.0], 'du': [1.0, 1.0], 'in_w': None, 'out_w': None,
+     'j': 6, 'k': 5, 'square': True},      # square window centred off-axis along x only (the (7.5, 0) class)
+    {'family': 'tie-zoom', 'n': [4, 4], 'm': [4, 4], 'x0': [-0.75, -0.45], 'dx': [0.5, 0.5], 'u0': [-1.5, -1.5], 'du': [1.0, 1.0], 'in_w': None, 'out_w': None,
+     'j': 9, 'k': 2, 'square': True},      # input grid shifted along y only (make_pupil_grid(4).shifted([0, 0.3]))
+    {'family': 'tie-zoom', 'n': [3, 3, 3], 'm': [2, 2, 2], 'x0': [-0.5, 0.25, -0.5], 'dx': [0.5, 0.5, 0.5], 'u0': [0.0, 0.0, 2.5], 'du': [0.75, 0.75, 0.75],
+     'in_w': None, 'out_w': None, 'j': 14, 'k': 5, 'square': True},
     {'family': 'tie-czt', 'n': 5, 'm': 7, 'omega': 3.5, 'alpha': -4.25, 'j': 3},   # |ω| > π: numpy's principal branch of w**(k²/2) is not ω
     {'family': 'tie-czt', 'n': 1, 'm': 1, 'omega': 0.5, 'alpha': 0.25, 'j': 0},
     {'family': 'tie-state', 'N': 3, 'q': 2.0, 'fov': 1.0, 'delta': 0.5, 'zero': -0.5, 'emu': False, 'dir': 'fwd', 'seed': 4},
